@@ -352,39 +352,10 @@ def _sea_case(rng):
     eng = cls.create(problem=prob, mutation_std=std, p_mutation=pM, p_crossover=pX, k_elites=k_el)
     np.random.seed(int(rng.integers(1 << 30)))
     captured = {}
-    osel = eng.select_new_population
-
-    def sel(par, off, _o=osel):
-        captured["off"] = [(tuple(float(t) for t in g), float(f)) for g, f in zip(off.genomes, off.fitnesses)]
-        out = _o(par, off)
-        captured["elites"] = None
-        return out
-
-    eng.select_new_population = sel
     calls.clear()
     kw = {"mutation_std": std * 0.5} if which == 3 else {}
-    with Rec() as rec:
-        new = eng.run(parents, **kw)
-    P = inds_pairs(parents)
-    O = captured["off"]
-    N = inds_pairs(new)
-    Q = list(calls)
-    cont = rec.randint[0]
-    scal = [x for x in rec.rand if np.ndim(x) == 0]
-    mats = [x for x in rec.rand if np.ndim(x) == 2]
-    pairs = []
-    if pipe in ("seax", "ga"):
-        it = iter(scal)
-        for _ in range(n // 2):
-            u = next(it)
-            al = next(it) if u < pX else 0.0
-            pairs.append((u, al))
-    mask = mats[-1]
-    noise = rec.normal[-1] if pipe != "ga" else rec.uniform[-1]
-    m = 1 if mx else 0
-    line = (f"seagen {m} f64 {pipe} {_box_tok(box)} {fr(pX)} {fr(pM)} {inds_tok(P)} {len(cont)} " + " ".join(f"{len(c)} " + " ".join(str(int(t)) for t in c) for c in cont)
-            + f" {len(pairs)} " + " ".join(f"{fr(u)} {fr(a)}" for u, a in pairs) + f" {_rows_tok(mask)} {_rows_tok(noise)} {len(Q)} " + " ".join(fit(v) for _, v in Q))
-    expect = f"{inds_tok(O)} | {inds_tok(Q)}"
+    new, line, expect, info = traced_sea_generation(eng, parents, box, mx, kw, calls=calls)
+    P, O, N, Q = info["P"], info["O"], info["N"], info["Q"]
     viol = []
     name = cls.__name__
     f0 = _objective(shape, [], mx)
@@ -405,6 +376,67 @@ def _sea_case(rng):
             viol.append(("C11/individual-neither-parent-nor-offspring", f"{name}: new individual {x} is neither a parent nor an offspring of this generation"))
             break
     return line, expect, {"engine": name, "nontrivial": pM < 1.0 or layout < 2, "n": n}, viol
+
+
+def traced_sea_generation(eng, parents, box, mx, kw=None, calls=None):
+    """run ONE real `eng.run(parents)` of a SEA-family engine under the recorder; returns (new individuals,
+    driver line, expected answer, info).  calls: what the objective logged — None inside whole traced runs,
+    where the evaluated rows are read from `Population.evaluate` (rows without a fitness before, their values after)"""
+    from pyhms.core.population import Population
+
+    pipe = {"SEA": "sea", "SEAWithAdaptiveMutation": "sea", "SEAWithCrossover": "seax", "GAStyleSEA": "ga"}[type(eng).__name__]
+    pX, pM = 0.0, 1.0
+    for op in eng.variational_operators_pipeline:
+        nm = type(op).__name__
+        if nm == "ArithmeticCrossover":
+            pX = float(op.probability)
+        elif nm in ("GaussianMutation", "UniformMutation"):
+            pM = float(op.probability)
+    captured = {}
+    osel = eng.select_new_population
+
+    def sel(par, off, _o=osel):
+        captured["off"] = [(tuple(float(t) for t in g), float(f)) for g, f in zip(off.genomes, off.fitnesses)]
+        return _o(par, off)
+
+    evaluated = []
+    orig_eval = Population.evaluate
+
+    def ev(self, *a, **k):
+        mask = np.isnan(self.fitnesses).copy()
+        orig_eval(self, *a, **k)
+        evaluated.extend((tuple(float(t) for t in g), float(f)) for g, f in zip(self.genomes[mask], self.fitnesses[mask]))
+
+    eng.select_new_population = sel
+    Population.evaluate = ev
+    try:
+        with Rec() as rec:
+            new = eng.run(parents, **(kw or {}))
+    finally:
+        Population.evaluate = orig_eval
+        del eng.select_new_population
+    n = len(parents)
+    P = inds_pairs(parents)
+    O = captured["off"]
+    N = inds_pairs(new)
+    Q = list(calls) if calls is not None else evaluated
+    cont = rec.randint[0]
+    scal = [x for x in rec.rand if np.ndim(x) == 0]
+    mats = [x for x in rec.rand if np.ndim(x) == 2]
+    pairs = []
+    if pipe in ("seax", "ga"):
+        it = iter(scal)
+        for _ in range(n // 2):
+            u = next(it)
+            al = next(it) if u < pX else 0.0
+            pairs.append((u, al))
+    mask = mats[-1]
+    noise = rec.normal[-1] if pipe != "ga" else rec.uniform[-1]
+    m = 1 if mx else 0
+    line = (f"seagen {m} f64 {pipe} {_box_tok(box)} {fr(pX)} {fr(pM)} {inds_tok(P)} {len(cont)} " + " ".join(f"{len(c)} " + " ".join(str(int(t)) for t in c) for c in cont)
+            + f" {len(pairs)} " + " ".join(f"{fr(u)} {fr(a)}" for u, a in pairs) + f" {_rows_tok(mask)} {_rows_tok(noise)} {len(Q)} " + " ".join(fit(v) for _, v in Q))
+    expect = f"{inds_tok(O)} | {inds_tok(Q)}"
+    return new, line, expect, {"P": P, "O": O, "N": N, "Q": Q, "pipe": pipe}
 
 
 def slice_sea(ctx, rng, n_cases, only=None):
@@ -434,6 +466,125 @@ def slice_sea(ctx, rng, n_cases, only=None):
             sl.nontrivial.add(hash(line))
         if g != e:
             sl.disagreements.append({"op": line[:6000], "impl": e[:3000], "model": g[:3000]})
+    if lines:
+        sl.sample({"op": lines[0][:500], "model": got[0][:300]})
+    if only:
+        sl.violations = [v for v in sl.violations if v["signature"].startswith(only)]
+    return sl
+
+
+# ------------------------------------------------------------------------------------------ MWEA selection
+def _mw_case(rng):
+    """one real call of MWEA's MultiwinnerRepeatedSelection; returns (driver line, expected, check line or None, meta, violations)"""
+    from pyhms.core.population import Population
+    from pyhms.core.problem import FunctionProblem
+    from pyhms.demes.single_pop_eas import sea as S
+
+    mx = bool(rng.random() < 0.4)
+    d = int(rng.integers(2, 4))
+    bounds = np.array([(-5.0, 5.0)] * d)
+    n = int(rng.integers(6, 15))
+    k = int(rng.integers(1, 5))
+    g = int(rng.integers(max(k, 3), min(n, 8) + 1))
+    prob = FunctionProblem(lambda x: 0.0, bounds=bounds, maximize=mx)
+    genomes = rng.uniform(-5, 5, size=(n, d))
+    kind = int(rng.integers(0, 4))
+    fits = rng.uniform(0, 10, n)
+    if kind == 1:
+        fits = np.floor(fits / 3.0)  # ties
+    elif kind == 2:
+        fits[int(rng.integers(n))] = np.inf if not mx else -np.inf  # a sentinel / death penalty
+    pop = Population(genomes.copy(), fits.copy(), prob)
+    eng = S.MWEA.create(problem=prob, mutation_std=1.0, p_mutation=1.0, k_elites=k, election_group_size=g)
+    op = eng.variational_operators_pipeline[0]
+    prefs_log = []
+    og = op.utility_function.get_preferences
+
+    def gp(population, _og=og):
+        out = _og(population)
+        prefs_log.append(np.array(out).tolist())
+        return out
+
+    op.utility_function.get_preferences = gp
+    import numpy.random as nr
+
+    shuffles = []
+    oshuffle = nr.shuffle
+
+    def sh(a):
+        oshuffle(a)
+        shuffles.append(np.array(a).tolist())
+
+    np.random.seed(int(rng.integers(1 << 30)))
+    nr.shuffle = sh
+    try:
+        with Rec() as rec:
+            out = op(pop)
+    finally:
+        nr.shuffle = oshuffle
+        del op.utility_function.get_preferences
+    groups = [c[2] for c in rec.choice if c[1] == g and not c[3]]
+    P = [(tuple(float(t) for t in a), float(f)) for a, f in zip(genomes, fits)]
+    R = [(tuple(float(t) for t in a), float(f)) for a, f in zip(out.genomes, out.fitnesses)]
+    rounds = n // k + 1
+    es = []
+    for r in range(rounds):
+        orders = shuffles[r * (k + 1) + 1 : (r + 1) * (k + 1)]  # the first shuffle of a call precedes the loop
+        es.append((groups[r], prefs_log[r], orders))
+
+    def rows(ll):
+        return f"{len(ll)} " + " ".join(f"{len(x)} " + " ".join(str(int(t)) for t in x) for x in ll)
+
+    line = f"mwsel {inds_tok(P)} {g} {k} {len(es)} " + " ".join(f"{len(gr)} " + " ".join(str(int(t)) for t in gr) + " " + rows(pf) + " " + rows(od) for gr, pf, od in es)
+    viol = []
+    pool = set(P)
+    for x in R:
+        if x not in pool:
+            viol.append(("C02/stored-fitness-wrong/mwea-selection", f"MultiwinnerRepeatedSelection handed on {x}, which is not an individual (genome and fitness) of the population it was given"))
+            break
+    if len(R) != n:
+        viol.append(("C12/size", f"MultiwinnerRepeatedSelection returned {len(R)} individuals for a population of {n} (k={k}, group size {g})"))
+    return line, R, {"mx": mx, "n": n, "k": k, "g": g, "trim": rounds * k > n, "kind": kind}, viol
+
+
+def slice_mwea(ctx, rng, n_cases, only=None):
+    sl = Slice("MWEA MultiwinnerRepeatedSelection vs MW.repeated (groups, preference lists and shuffles recorded)")
+    lines, metas = [], []
+    for _ in range(n_cases):
+        try:
+            line, R, meta, viol = _mw_case(rng)
+        except Exception as e:  # noqa: BLE001
+            from .common import is_env_crash
+
+            if is_env_crash(e):
+                sl.skipped += 1
+                continue
+            sl.disagreements.append({"op": "mwea selection", "impl": f"raised {type(e).__name__}: {e}", "model": "-"})
+            continue
+        lines.append(line)
+        metas.append((R, meta))
+        for sig, det in viol:
+            sl.violations.append({"signature": sig, "detail": det, "replay": {"op": line[:6000]}})
+    got = run_driver(lines)
+    # second pass: the cut `topk(n)` of the model's concatenation, as a relation
+    lines2, idx2 = [], []
+    for j, (line, g, (R, meta)) in enumerate(zip(lines, got, metas)):
+        sl.cases += 1
+        sl.count(f"k={meta['k']}")
+        if meta["kind"] in (1, 2):
+            sl.nontrivial.add(hash(line))
+        if g in ("none", "bad-op"):
+            sl.disagreements.append({"op": line[:4000], "impl": inds_tok(R)[:1500], "model": g})
+            continue
+        if not meta["trim"]:
+            if g != inds_tok(R):
+                sl.disagreements.append({"op": line[:4000], "impl": inds_tok(R)[:1500], "model": g[:1500]})
+        else:
+            lines2.append(f"topkok {1 if meta['mx'] else 0} {meta['n']} {g} {inds_tok(R)}")
+            idx2.append(j)
+    for j, g2 in zip(idx2, run_driver(lines2)):
+        if g2 != "1":
+            sl.disagreements.append({"op": lines[j][:4000], "impl": inds_tok(metas[j][0])[:1500], "model": "the returned population is not an admissible topk(n) cut of the model's concatenation: " + got[j][:1200]})
     if lines:
         sl.sample({"op": lines[0][:500], "model": got[0][:300]})
     if only:
